@@ -1340,6 +1340,13 @@ def oracle(c, obs):
                             ch in cs and before["st"][q] not in _IN for (q, rj), cs in before["coll"].items()
                         ):
                             tag = "F4"
+                        elif (
+                            v not in before["mk"] and before["st"][v] == 2 and after["st"][v] == 3
+                            and ch in before["coll"].get((v, ri), ())
+                        ):
+                            # the parent was not marked by Session.delete: the flush itself deleted it as a
+                            # persistent orphan (top-level _is_orphan scan), which does not run its delete cascade
+                            tag = "F6"
                         return "%s: row %d references parent %d through delete-orphan relationship r%d but the parent row is gone" % (tag, ch, v, ri)
             at_flush = {}
             for (q, ri), cs in after["coll"].items():
@@ -1357,6 +1364,8 @@ def match_finding(c, what):
         return "C39-delete-cancelled-by-pending-parent"
     if what.startswith("F4:"):
         return "C39-reparented-outside-session-dangling-row"
+    if what.startswith("F6:"):
+        return "C39-toplevel-orphan-delete-skips-cascade"
     if what.startswith("F5:"):
         return "C39-unflushed-membership-orphan-survives"
     return None
